@@ -190,7 +190,8 @@ def replay_file(path, quiet=False):
     if not quiet:
         print("replay %s: %d ops, violation=%s" % (path, len(doc["ops"]), r["violation"]))
         if doc.get("digest"):
-            print("digest %s (recorded %s)" % (r["digest"], doc["digest"]))
+            print("digest %s (recorded %s) digest-match=%s"
+                  % (r["digest"], doc["digest"], "yes" if r["digest"] == doc["digest"] else "no"))
     return prop, r, same_cls
 
 
@@ -199,7 +200,7 @@ def fresh_replay_ok(path):
     env = dict(os.environ, PYTHONHASHSEED="0")
     p = subprocess.run([sys.executable, os.path.join(HERE, "check.py"), "--replay", path],
                        capture_output=True, text=True, env=env, timeout=600)
-    return p.returncode == 1 and "VIOLATION" in p.stdout
+    return p.returncode == 1 and "VIOLATION" in p.stdout and "digest-match=yes" in p.stdout
 
 
 def finding_matches(f, vclass):
